@@ -7,26 +7,49 @@ from .model import u
 from .tmpl import tall, tfirst_missing
 
 
-def need(ctx, rule: str, qual: str, title: str, templates: list[str], why: str = "", env: dict | None = None, **kw):
-    """all templates occur in the canonical body of `qual` under one consistent binding of the metavariables"""
+def _unconditional(body) -> list[ast.stmt]:
+    """the statements that run whenever the function gets past its refusals: the top level (and `with` bodies there), not the arms of
+    if / loops / try"""
+    out = []
+    for s_ in body:
+        if isinstance(s_, (ast.With, ast.AsyncWith)):
+            out.append(ast.Expr(value=ast.Tuple(elts=[i_.context_expr for i_ in s_.items], ctx=ast.Load())))
+            out += _unconditional(s_.body)
+        elif isinstance(s_, (ast.If, ast.For, ast.While, ast.Try, ast.Match, ast.FunctionDef, ast.AsyncFunctionDef, ast.ClassDef)):
+            if isinstance(s_, ast.If):
+                out.append(ast.Expr(value=s_.test))
+            elif isinstance(s_, ast.For):
+                out.append(ast.Expr(value=s_.iter))
+        else:
+            out.append(s_)
+    return out
+
+
+def need(ctx, rule: str, qual: str, title: str, templates: list[str], why: str = "", env: dict | None = None, always: bool = False, **kw):
+    """all templates occur in the canonical body of `qual` under one consistent binding of the metavariables.
+    always=True: .. among the statements that run unconditionally (a guard put around one of them is then a violation)"""
     fn = ctx.cfn(qual, **kw)
     orig, m, _ = ctx.locate(qual)
-    e = tall(fn.body, templates, env)
+    e = tall(_unconditional(fn.body) if always else fn.body, templates, env)
     if e is not None:
         ctx.ok(rule, title, "; ".join(templates)[:300])
         return e
+    if always and tall(fn.body, templates, env) is not None:
+        ctx.fail(rule, title, m.path, orig.lineno, (why + " " if why else "") + f"[in {qual.split('.')[-1]} only under a condition: `{'; '.join(templates)[:200]}`]", orig,
+                 expected="; ".join(templates)[:300], found=" ; ".join(u(s) for s in fn.body)[:400])
+        return None
     missing = tfirst_missing(fn.body, templates, env)
     ctx.fail(rule, title, m.path, orig.lineno, (why + " " if why else "") + f"[not found in {qual.split('.')[-1]}: `{missing}`]", orig,
              expected=str(missing), found=" ; ".join(u(s) for s in fn.body)[:400])
     return None
 
 
-def need_any(ctx, rule: str, qual: str, title: str, alternatives: list[list[str]], why: str = "", env: dict | None = None, **kw):
+def need_any(ctx, rule: str, qual: str, title: str, alternatives: list[list[str]], why: str = "", env: dict | None = None, always: bool = False, **kw):
     """like need(), with several spellings of the same requirement (e.g. a value held in a local or written where it is used)"""
     fn = ctx.cfn(qual, **kw)
     orig, m, _ = ctx.locate(qual)
     for templates in alternatives:
-        e = tall(fn.body, templates, dict(env) if env else None)
+        e = tall(_unconditional(fn.body) if always else fn.body, templates, dict(env) if env else None)
         if e is not None:
             ctx.ok(rule, title, "; ".join(templates)[:300])
             return e
